@@ -131,6 +131,19 @@ def run_case(case):
     g_restack = base.Graph.stack(singles)
     if not same_snapshot(snapshot(g_restack), snapshot(cg)):
         fam("stack").append(dict(clause="graph_stack_differs_from_experiment_to_graph"))
+    # mixed-precision stack: a float32/int32 graph (as generate_graphs returns) stacked before a float64/int64 recorded graph
+    g32 = jax.tree_util.tree_map(lambda x: onp.asarray(x).astype(onp.float32 if onp.asarray(x).dtype.kind == "f" else onp.int32), singles[0])
+    for order in ((g32, singles[-1]), (singles[-1], g32)):
+        mixed = base.Graph.stack(list(order))
+        idx = 1 if order[0] is g32 else 0
+        me = jax.tree_util.tree_map(lambda x: x[idx], mixed)
+        ge = singles[-1]
+        for n in ge.vertices:
+            for f in ("seq", "ts_start", "ts_end"):
+                strip_eq(getattr(ge.vertices[n], f), getattr(me.vertices[n], f), counters, "mixed_precision_stack_altered_episode", fam("stack"), node=n, field=f, float64_episode_position=idx)
+        for k in ge.edges:
+            for f in ("seq_out", "seq_in", "ts_recv"):
+                strip_eq(getattr(ge.edges[k], f), getattr(me.edges[k], f), counters, "mixed_precision_stack_altered_episode", fam("stack"), conn=k, field=f, float64_episode_position=idx)
     # ---------- 3. networkx
     for e in range(n_eps):
         ge = C.npz(singles[e])
